@@ -163,7 +163,14 @@ func (fs *FileSystemOperation) SaveGatewayConfig(content []byte) error {
 }
 
 func (fs *FileSystemOperation) SaveMetricsConfig(content []byte) error {
-	return fs.storeFileOnDisk(environment.GetMetricsConfigFilePath(), content)
+	// The pushed metrics config belongs to the user's metrics file - the one Backup, Restore and
+	// the clean-up look at - even when that file does not exist yet; the built-in default file
+	// (the fallback of GetMetricsConfigFilePath) must not be overwritten.
+	filePath := fs.files[metricsConfigFileKey]
+	if filePath == "" {
+		filePath = environment.GetMetricsConfigFilePath()
+	}
+	return fs.storeFileOnDisk(filePath, content)
 }
 
 func (fs *FileSystemOperation) cleanUpFile(filePath string) error {
